@@ -156,4 +156,32 @@ theorem length_subst (np : Nat) (old new : Int) (c : Cell) : (subst np old new c
   simp [List.length_take, List.length_drop]
   omega
 
+/-- with a fresh `new` (not a vertex of the cell) the C's "undo" (`new ↦ node0`) restores the cell, so the
+    node1 version is plainly `node1 ↦ new` -/
+theorem splitV1_fresh (np : Nat) (n0 n1 new : Int) (c : Cell) (hf : new ∉ nodesOf np c) :
+    splitV1 np n0 n1 new c = subst np n1 new c := by
+  unfold splitV1
+  congr 1
+  unfold subst
+  have hl : ((c.take np).map fun v => if v = n0 then new else v).length = (c.take np).length := by simp
+  have htake : (((c.take np).map fun v => if v = n0 then new else v) ++ c.drop np).take np =
+      (c.take np).map fun v => if v = n0 then new else v := by
+    have := nodesOf_subst np n0 new c
+    simpa [nodesOf, subst] using this
+  have hdrop : (((c.take np).map fun v => if v = n0 then new else v) ++ c.drop np).drop np = c.drop np := by
+    rcases Nat.le_total np c.length with h | h
+    · exact drop_subst np n0 new c h
+    · have hd : c.drop np = [] := List.drop_of_length_le h
+      rw [hd, List.append_nil]
+      apply List.drop_of_length_le
+      simp [List.length_take]; omega
+  rw [htake, hdrop, List.map_map]
+  conv => rhs; rw [← List.take_append_drop np c]
+  congr 1
+  conv => rhs; rw [← List.map_id (c.take np)]
+  apply List.map_congr_left
+  intro v hv
+  have hv' : v ≠ new := fun e => hf (by simpa [nodesOf, e] using hv)
+  by_cases h0 : v = n0 <;> simp [h0, hv']
+
 end Refine.Model.MeshOps
